@@ -12,6 +12,39 @@ def setup():
     M.cargo_build(["rtsim"], "build-rtsim.log")
 
 
+def miri_sample(prop, seed):
+    """Side observation, thorough tier only: a few seeded histories of the same simulator under
+    Miri (Tree Borrows), which watches the `unsafe` in IterMut and the Rc-based copy-on-write for
+    aliasing violations and use-after-free. It decides none of the listed properties (no property
+    speaks of undefined behaviour); what it reports is recorded in the evidence and printed as a
+    DIAGNOSTIC line, and never changes the exit code."""
+    import shutil
+    import tempfile
+    if not shutil.which("cargo"):
+        return {"status": "cargo not found"}
+    out = tempfile.mkdtemp(prefix="miri-", dir="/dev/shm" if os.path.isdir("/dev/shm") else None)
+    env = M.cargo_env()
+    env["CARGO_TARGET_DIR"] = os.path.join(M.TARGET, "miri")
+    env["MIRIFLAGS"] = "-Zmiri-disable-isolation -Zmiri-tree-borrows"
+    runs = {"C14": "60", "C08": "25"}.get(prop, "20")
+    cmd = ["cargo", "+nightly", "miri", "run", "-p", "rtsim", "--offline", "--", "run", "--prop", prop, "--tier", "quick",
+           "--seed", str(seed), "--shard", "0", "--nshards", "1", "--out", out, "--runs", runs]
+    try:
+        proc = subprocess.run(cmd, cwd=M.VERIF, env=env, capture_output=True, text=True, timeout=1500)
+    except (subprocess.TimeoutExpired, OSError) as e:
+        shutil.rmtree(out, ignore_errors=True)
+        return {"status": "not run: %s" % type(e).__name__}
+    ub = [l for l in proc.stderr.splitlines() if "Undefined Behavior" in l]
+    ok = os.path.exists(os.path.join(out, "shard-0.json"))
+    shutil.rmtree(out, ignore_errors=True)
+    if ub:
+        M.log("DIAGNOSTIC miri (tree borrows) reports undefined behaviour in %s histories: %s" % (prop, ub[0][:300]))
+    return {"status": "ran" if ok or ub else "miri did not finish (exit %s)" % proc.returncode, "aliasing_model": "tree borrows",
+            "histories": int(runs), "undefined_behaviour_reported": bool(ub), "first_report": ub[0][:300] if ub else None,
+            "note": ("under the stricter Stacked Borrows model Miri flags IterMut::next (eqlog-runtime/src/wbtree/map.rs, "
+                     "`&mut *data_node_ptr` after `descend_left` retagged the node): recorded in DESIGN.md as a side observation")}
+
+
 def run(prop, tier, seed, spec, t0):
     M.cargo_build(["rtsim"], "build-rtsim.log")
     outdir = os.path.join(M.WORK, "%s-%s" % (prop, tier))
@@ -25,7 +58,10 @@ def run(prop, tier, seed, spec, t0):
         mres, mdir, mbin, mcov, _ = model.run_shards(prop, tier, seed, suffix="-model")
         return M.finish(prop, tier, seed, spec, results + mres, outdir, {"rtsim": BIN, "modelsim": mbin}, t0,
                         extra_cov={"model_level": mcov}, extra_fp_dirs=[mdir])
-    return M.finish(prop, tier, seed, spec, results, outdir, BIN, t0)
+    extra_cov = None
+    if tier == "thorough" and prop in ("C14", "C08") and not os.environ.get("VERIF_NO_MIRI"):
+        extra_cov = {"miri_side_observation": miri_sample(prop, seed)}
+    return M.finish(prop, tier, seed, spec, results, outdir, BIN, t0, extra_cov=extra_cov)
 
 
 def replay(path, v):
